@@ -425,7 +425,15 @@ func (x *Exec) iteChan(c *Term, a, b *ChanObj) *ChanObj {
 	if a.Cap != b.Cap {
 		panic("ite of channels with different capacity")
 	}
-	out := &ChanObj{Cap: a.Cap, ET: a.ET, Buf: make([]Value, a.Cap)}
+	if a.Senders != b.Senders {
+		if a.Senders != 0 && b.Senders != 0 {
+			panic("ite of channels with different parked senders")
+		}
+	}
+	out := &ChanObj{Cap: a.Cap, ET: a.ET, Buf: make([]Value, a.Cap), Senders: a.Senders}
+	if out.Senders == 0 {
+		out.Senders = b.Senders
+	}
 	for i := range out.Buf {
 		out.Buf[i] = x.ite(c, a.Buf[i], b.Buf[i])
 	}
